@@ -171,9 +171,14 @@ def check_solver_ownership(model, rep):
     from sa.paths import PathEnumerator, Event
     mod = model.module('solver')
     nstores = nfun = 0
-    for f in model.functions.values():
-        if f.module is not mod or isinstance(f.node, ast.Lambda):
-            continue
+    RANK = {None: 0, 'fresh': 1, 'caller': 2}
+    worst = lambda a, b: a if RANK[a] >= RANK[b] else b
+    # what a method of this module hands back, per position of its returned tuple ('caller' if on some path it is (a view of) a caller's array):
+    # filled by a first pass over all functions, used by the second pass where the result of `self.<method>(...)` is bound
+    summaries = {}
+    funcs = [f for f in model.functions.values() if f.module is mod and not isinstance(f.node, ast.Lambda)]
+    for final in (False, True):
+      for f in funcs:
         pos, kwonly, va, kwv = params(f.node)
         maps = {p for p in list(pos) + list(kwonly) if p in CALLER_MAPS}
         if not maps:
@@ -193,10 +198,17 @@ def check_solver_ownership(model, rep):
                     basic = isinstance(idx, (ast.Slice, ast.Constant)) or (isinstance(idx, ast.Tuple) and all(isinstance(x, (ast.Slice, ast.Constant)) for x in idx.elts)) or src(idx) == '...'
                     return 'caller' if basic else 'fresh'
                 return k
+            if isinstance(e, (ast.List, ast.Tuple)):
+                k = None
+                for x in e.elts:
+                    k = worst(k, kind(x.value if isinstance(x, ast.Starred) else x, state))
+                return k    # a container holds caller-owned storage if one of its items does
             if isinstance(e, ast.Call):
                 fn = src(e.func)
                 if isinstance(e.func, ast.Attribute) and isinstance(e.func.value, ast.Name) and e.func.value.id in maps and e.func.attr in ('get', 'pop', 'setdefault'):
                     return 'caller'
+                if isinstance(e.func, ast.Attribute) and src(e.func.value) == 'self' and e.func.attr in summaries and len(summaries[e.func.attr]) == 1:
+                    return summaries[e.func.attr][0]
                 if fn in FRESH_CALLS:
                     return 'fresh'
                 if fn in ('numpy.asarray', 'numpy.asanyarray', 'numpy.ascontiguousarray') and e.args:
@@ -221,10 +233,26 @@ def check_solver_ownership(model, rep):
 
         def on_stmt(s_, st):
             evs = []
+            if isinstance(s_, ast.Return) and s_.value is not None:
+                evs.append(Event('RET', s_, s_.value))
+            if isinstance(s_, ast.Expr) and isinstance(s_.value, ast.Call) and isinstance(s_.value.func, ast.Attribute) and s_.value.func.attr in ('append', 'extend', 'insert') \
+                    and isinstance(s_.value.func.value, ast.Name) and s_.value.args:
+                evs.append(Event('APPEND', s_, (s_.value.func.value.id, s_.value.args[-1])))
             if isinstance(s_, ast.Assign) and len(s_.targets) == 1:
                 t = s_.targets[0]
                 if isinstance(t, ast.Name):
                     evs.append(Event('BIND', s_, (t.id, s_.value)))
+                elif isinstance(t, (ast.Tuple, ast.List)) and all(isinstance(x, ast.Name) for x in t.elts):
+                    v = s_.value
+                    if isinstance(v, ast.Call) and isinstance(v.func, ast.Attribute) and src(v.func.value) == 'self' and len(summaries.get(v.func.attr, ())) == len(t.elts):
+                        for x, k_ in zip(t.elts, summaries[v.func.attr]):     # a, b = self.method(...): what the method hands back at each position
+                            evs.append(Event('BINDK', s_, (x.id, k_)))
+                    elif isinstance(v, (ast.Tuple, ast.List)) and len(v.elts) == len(t.elts):
+                        for x, vv in zip(t.elts, v.elts):
+                            evs.append(Event('BIND', s_, (x.id, vv)))
+                    else:
+                        for x in t.elts:    # unpacking a container: each name may be any of its items
+                            evs.append(Event('BIND', s_, (x.id, v)))
                 elif isinstance(t, ast.Subscript) and isinstance(t.value, ast.Name) and t.value.id not in maps:
                     evs.append(Event('STORE', s_, t.value.id))
             elif isinstance(s_, ast.AugAssign):
@@ -244,8 +272,8 @@ def check_solver_ownership(model, rep):
         except AnalysisError:
             rep.info(f'R03.7 {f.key}: too many paths, ownership of its arrays is not decided')
             continue
-        nfun += 1
         bad = {}
+        retk = {}
         for p_ in paths:
             state = {}
             for e in p_.events:
@@ -256,12 +284,33 @@ def check_solver_ownership(model, rep):
                         state.pop(nme, None)
                     else:
                         state[nme] = k
+                elif e.kind == 'BINDK':
+                    nme, k = e.data
+                    if k is None:
+                        state.pop(nme, None)
+                    else:
+                        state[nme] = k
+                elif e.kind == 'APPEND':
+                    nme, val = e.data
+                    k = worst(state.get(nme), kind(val, state))
+                    if k is not None:
+                        state[nme] = k
+                elif e.kind == 'RET':
+                    v = e.data
+                    ks = [kind(x, state) for x in v.elts] if isinstance(v, ast.Tuple) else [kind(v, state)]
+                    prev = retk.get(len(ks))
+                    retk[len(ks)] = ks if prev is None else [worst(a_, b_) for a_, b_ in zip(prev, ks)]
                 elif e.kind in ('iter', 'loop-body'):
                     pass
                 elif e.kind == 'STORE':
                     nstores += 1
                     if state.get(e.data) == 'caller':
                         bad.setdefault(e.node.lineno, (e.node, e.data))
+        if not final:
+            if len(retk) == 1:
+                summaries[f.name] = next(iter(retk.values()))
+            continue
+        nfun += 1
         for node, nme in bad.values():
             rep.ob('R03.7', f.key, f.where(node), False, f'`{stmt_text(node)[:60]}` writes into `{nme}`, which on this path is (a no-copy view or conversion of) an array the caller passed in `{", ".join(sorted(maps))}`: '
                    'the caller\'s array is changed, so a second call with the same arguments is not the call the caller made', statement=f'store-into-caller {nme}')
@@ -297,6 +346,76 @@ def check_array_memo_key(model, rep):
     rep.ob('R03.8', f.key, f.where(branch[0]), bypass, 'a writeable array (or base) bypasses the memo' if bypass else 'writeable arrays are memoised: their content can change under the same key', statement='writeable-bypass')
 
 
+ARRAY_MAKERS = {'reshape', 'ravel', 'copy', 'astype', 'take', 'transpose', 'swapaxes', 'flatten', 'squeeze', 'repeat', 'cumsum', 'view'}
+COPYING = {'numpy.array', 'numpy.copy', 'numpy.empty', 'numpy.zeros', 'numpy.ones', 'numpy.full', 'numpy.empty_like', 'numpy.zeros_like', 'numpy.array_like'}
+
+
+def _builds_array(e):
+    """Does the expression (syntactically) build a new NumPy array / a view of a local one - something writable unless frozen?"""
+    if isinstance(e, ast.Call):
+        n = dotted(e.func) or ''
+        if n.startswith('numpy.') and n not in ('numpy.asarray',):
+            return True
+        if isinstance(e.func, ast.Attribute) and e.func.attr in ARRAY_MAKERS:
+            return True
+        return False
+    if isinstance(e, ast.BinOp):
+        return True
+    if isinstance(e, ast.Subscript):
+        return _builds_array(e.value) or isinstance(e.value, ast.Name)
+    return False
+
+
+def check_long_lived_arrays(model, rep):
+    """R03.9: arrays that live as long as the library object that hands them out are read-only when handed out.
+    (a) points.py: Points objects are Singletons shared by every sample; their cached_property members (coords, weights, tri, hull, ...) are
+        returned to callers and baked into compiled functions (PointsSequence.get_evaluable_coords).  A member that returns an array it
+        built itself (numpy call, reshape/ravel/..., arithmetic, subscript of a local) without types.frozenarray hands out a writable array:
+        writing into a result changes every later call that uses those points.
+    (b) evaluable.Constant.value feeds builder.add_constant: it must be a no-copy view of the immutable arraydata (numpy.asarray), never a
+        copying constructor - a copy is writable until the first run has ended, and views of it created during that run stay writable."""
+    from sa.astutil import deep_resolved
+    mod = model.module('points')
+    n = 0
+    for c in sorted(model.classes.values(), key=lambda c: c.key):
+        if c.module is not mod:
+            continue
+        for mem in c.members.values():
+            f = mem.func
+            if f is None or isinstance(f.node, ast.Lambda) or 'cached_property' not in ' '.join(f.decorators):
+                continue
+            for r in find_stmts(f.body, lambda s_: isinstance(s_, ast.Return) and s_.value is not None):
+                v = deep_resolved(f.node, r.value)
+                elems = v.elts if isinstance(v, ast.Tuple) else [v]
+                for e in elems:
+                    if isinstance(e, ast.Call) and (dotted(e.func) or '').endswith('frozenarray'):
+                        n += 1
+                        rep.ob('R03.9', f.key, f.where(r), True, f'{c.name}.{f.name} hands out a frozen array', statement=f'frozen {f.name}')
+                    elif _builds_array(e) or (isinstance(r.value, ast.Name) and _locally_built(f, r.value.id)):
+                        n += 1
+                        rep.ob('R03.9', f.key, f.where(r), False, f'{c.name}.{f.name} returns `{src(r.value)[:60]}`, an array it built itself, without types.frozenarray: the cached member of a shared Points singleton is writable, '
+                               'so writing into an array a compiled function returned (get_evaluable_coords) changes the results of every later call', statement=f'frozen {f.name}')
+    if n < 10:
+        raise AnalysisError(f'R03.9: only {n} array-valued cached members found in points.py')
+    f = model.func('evaluable:Constant.value')
+    rets = find_stmts(f.body, lambda s_: isinstance(s_, ast.Return) and s_.value is not None)
+    for r in rets:
+        v = deep_resolved(f.node, r.value)
+        name = dotted(v.func) if isinstance(v, ast.Call) else None
+        bad = name in COPYING or (isinstance(v, ast.Call) and isinstance(v.func, ast.Attribute) and v.func.attr == 'copy') or \
+            (isinstance(v, ast.Call) and any(k.arg == 'copy' and const(k.value) is True for k in v.keywords))
+        rep.ob('R03.9', f.key, f.where(r), not bad, 'Constant.value is a view of the immutable arraydata (no copy)' if not bad else
+               f'Constant.value returns `{src(r.value)}`, a COPY of the immutable storage: the copy is writable until the end of the first run and views of it created during that run stay writable, '
+               'so writing into a returned array rewrites the constant for all later calls', statement='constant-no-copy')
+
+
+def _locally_built(f, name):
+    for s_ in ast.walk(f.node):
+        if isinstance(s_, ast.Assign) and any(isinstance(t, ast.Name) and t.id == name for t in s_.targets) and _builds_array(s_.value):
+            return True
+    return False
+
+
 def run(model, rep, tier):
     from rules.c02 import check_destinations, check_printer
     from rules.c06 import check_constancy
@@ -325,6 +444,8 @@ def run(model, rep, tier):
     check_system_cache(model, rep)
     check_solver_ownership(model, rep)
     check_array_memo_key(model, rep)
+    rep.rule('R03.9', 'arrays that live as long as a shared library object (Points members, Constant.value) are handed out read-only / without a writable copy')
+    check_long_lived_arrays(model, rep)
     from rules.c02 import check_dependency_registration, check_fields_announced
     check_fields_announced(model, rep, rule='R03.3')
     check_dependency_registration(model, rep, rule='R03.2')
